@@ -17,8 +17,14 @@ fn py_string(r: &mut Rng, marks: &[usize], max: usize) -> (Vec<u8>, &'static str
             let n = gen::length(r, marks, max.min(120));
             let mut s = String::new();
             for _ in 0..n {
-                match r.below(4) {
+                match r.below(5) {
                     0 => s.push(*r.pick(&['é', 'ß', 'Ω', 'あ', '漢', '𝔸', '😀', '\u{a0}', '\u{85}', 'Ａ', 'Ｃ'])),
+                    1 => {
+                        // a non-ASCII scalar value whose low byte is a nucleotide letter (must still be ambiguous)
+                        let hi = match r.below(3) { 0 => r.range(1, 7), 1 => r.range(8, 0xD7), _ => r.range(0x100, 0x10FF) } as u32;
+                        let cp = (hi << 8) | (*r.pick(gen::NUC_ALL) as u32);
+                        s.push(char::from_u32(cp).unwrap_or('é'));
+                    }
                     _ => s.push(*r.pick(gen::NUC_ALL) as char),
                 }
             }
@@ -155,11 +161,18 @@ pub fn run_c13(tier: &str, seed: u64, model: &Model, corpus_lines: Vec<String>, 
                     let sz = *rng.pick(&[1u64, 2, 3, 16, 1000, 1 << 20]);
                     let n = gen::length(&mut rng, &[1, 30], 400);
                     let mut s = gen::clean_seq(&mut rng, n, gen::Flavor::MixedCase);
-                    if rng.chance(1, 3) && !s.is_empty() {
+                    if rng.chance(1, 2) && !s.is_empty() {
                         let p = rng.below(s.len() as u64) as usize;
-                        let (u, _) = py_string(&mut rng, &[1], 2);
+                        // one non-ASCII character whose low byte is a nucleotide letter, or any other string
+                        let u: Vec<u8> = if rng.chance(1, 2) {
+                            let hi = match rng.below(3) { 0 => rng.range(1, 7), 1 => rng.range(8, 0xD7), _ => rng.range(0x100, 0x10FF) } as u32;
+                            let cp = (hi << 8) | (*rng.pick(gen::NUC_ALL) as u32);
+                            char::from_u32(cp).unwrap_or('é').to_string().into_bytes()
+                        } else {
+                            py_string(&mut rng, &[1], 2).0
+                        };
                         s.splice(p..p, u);
-                        if rng.chance(1, 2) { s.push(b'N'); }
+                        if rng.chance(1, 4) { s.push(b'N'); }
                     }
                     format!("cgr {} {}", sz, hex(&s))
                 }
